@@ -99,7 +99,7 @@ def variants_of(prog, adt):
     return [v["name"] for v in a["variants"]] if a else []
 
 
-def eval_for_variant(prog, body, adt, variant, depth=0):
+def eval_for_variant(prog, body, adt, variant, depth=0, result_enum=None):
     """Value of the method `body` (fn(&self) of enum `adt`) for self = `variant`, computed from the code: nested matches on self and
     on values other methods of the enum return (`match self.class() { Keyword => .., Symbol => match self { .. } }`), small enums of
     the module and their methods (`LookAhead::OneChar.len()`), matches!, constants.  -> literal value | ("variant", path) | None"""
@@ -108,11 +108,37 @@ def eval_for_variant(prog, body, adt, variant, depth=0):
     if body["params"] and body["params"][0].get("k") == "Binding":
         self_ids.add(body["params"][0]["id"])
 
+    # the enum value may be the first parameter itself (a method of the enum, a helper handed `&token.token_type`) or the one field of
+    # that type of the first parameter (`token: &Token`)
+    field_mode = None
+    if body["params"] and body["params"][0].get("k") == "Binding" and result_enum is not None:
+        pt_ = hir.adt_path(c, body["params"][0]["bt"])
+        if pt_ != adt:
+            flds_ = []
+            for cr_ in (prog.front, prog.lsp):
+                ad_ = cr_.adts.get(pt_) if pt_ else None
+                if ad_ and ad_.get("k") == "struct" and ad_.get("variants"):
+                    flds_ = [f_["name"] for f_ in ad_["variants"][0].get("fields") or [] if hir.adt_path(cr_, f_.get("t")) == adt]
+                    break
+            field_mode = flds_[0] if len(flds_) == 1 else "?"
+
     def is_self(e):
         e = hir.strip_ref(hir.strip(e))
         while e.get("k") == "Unary" and e.get("op") in ("*", "Deref"):
             e = hir.strip_ref(hir.strip(e["e"]))
+        if field_mode is not None:
+            if e.get("k") == "Field" and e["name"] == field_mode:
+                pl = hir.path_local(hir.strip_ref(hir.strip(e["base"])))
+                return bool(pl) and pl["id"] in self_ids
+            return False
         pl = hir.path_local(e)
+        return bool(pl) and pl["id"] in self_ids
+
+    def is_carrier(e):
+        """the first parameter itself, in field mode (`token`)"""
+        if field_mode is None:
+            return False
+        pl = hir.path_local(hir.strip_ref(hir.strip(e)))
         return bool(pl) and pl["id"] in self_ids
 
     def pat_hits(p, val):
@@ -173,9 +199,28 @@ def eval_for_variant(prog, body, adt, variant, depth=0):
             return None
         if k == "Lit":
             return e["lit"].get("v")
+        if is_self(e):
+            return ("variant", adt + "::" + variant)
+        if k in ("Try",) and result_enum is not None:
+            v_ = ev(e["e"], d + 1)
+            if v_ == NONE_V:
+                raise _Return(NONE_V)
+            return v_
+        if k == "Unary" and e.get("op") in ("!", "Not") and result_enum is not None:
+            v_ = ev(e["e"], d + 1)
+            return (not v_) if v_ in (True, False) else None
+        if k == "Binary" and e.get("op") in ("&&", "||", "And", "Or") and result_enum is not None:
+            a_, b_ = ev(e["l"], d + 1), None
+            if e["op"] in ("&&", "And"):
+                if a_ is False:
+                    return False
+                b_ = ev(e["r"], d + 1)
+                return (a_ and b_) if a_ in (True, False) and b_ in (True, False) else (False if b_ is False else None)
+            if a_ is True:
+                return True
+            b_ = ev(e["r"], d + 1)
+            return (a_ or b_) if a_ in (True, False) and b_ in (True, False) else (True if b_ is True else None)
         if k == "Path":
-            if is_self(e):
-                return ("variant", adt + "::" + variant)
             pl = hir.path_local(e)
             if pl and pl["id"] in env:
                 return env[pl["id"]]
@@ -190,6 +235,17 @@ def eval_for_variant(prog, body, adt, variant, depth=0):
             dd = hir.path_def(e["f"])
             if dd and dd.get("ctor_of") and last(dd["ctor_of"]) in ("Some", "Ok") and len(e["args"]) == 1:
                 return ev(e["args"][0], d + 1)
+            if result_enum is not None:
+                hb = hir.local_callee_body(prog, e)
+                if hb is not None and hb["_crate"] is c and e["args"] and depth < 4 and (is_self(e["args"][0]) or is_carrier(e["args"][0])):
+                    r_ = eval_for_variant(prog, hb, adt, variant, depth + 1, result_enum)
+                    if r_ is not None:
+                        return r_
+                # a constructor-like helper: the one argument that is a value of the result enum is what the answer carries
+                vals_ = [ev(a_, d + 1) for a_ in e["args"]]
+                cands_ = [v_ for v_ in vals_ if isinstance(v_, tuple) and v_[0] == "variant" and v_[1].rsplit("::", 1)[0].endswith(result_enum)]
+                if len(cands_) == 1:
+                    return cands_[0]
             return None
         if k == "Ret":
             raise _Return(ev(e["e"], d + 1) if e.get("e") is not None else None)
@@ -232,9 +288,36 @@ def eval_for_variant(prog, body, adt, variant, depth=0):
                 except _Unknown:
                     return None
                 if h and arm.get("guard") is not None:
-                    return None
+                    if result_enum is None:
+                        return None
+                    g_ = ev(arm["guard"], d + 1)
+                    if g_ is False:
+                        continue
+                    if g_ is not True:
+                        return None
                 if h:
                     return ev(arm["body"], d + 1)
+            return None
+        if k == "MethodCall" and result_enum is not None and e["m"] in ("into", "clone", "to_owned", "then_some", "then", "map", "filter", "copied", "cloned"):
+            rv = ev(e["recv"], d + 1)
+            if e["m"] in ("into", "clone", "to_owned", "copied", "cloned"):
+                return rv
+            if e["m"] in ("then_some", "then") and e["args"]:
+                if rv is False:
+                    return NONE_V
+                if rv is not True:
+                    return None
+                a0_ = hir.strip(e["args"][0])
+                return ev(a0_["body"] if a0_.get("k") == "Closure" else a0_, d + 1)
+            if e["m"] == "map" and e["args"]:
+                if rv == NONE_V or rv is None:
+                    return rv
+                a0_ = hir.strip(e["args"][0])
+                if a0_.get("k") == "Closure" and len(a0_.get("params") or []) == 1:
+                    bind(a0_["params"][0], rv)
+                    r2_ = ev(a0_["body"], d + 1)
+                    return r2_ if r2_ is not None else rv
+                return rv
             return None
         if k == "MethodCall":
             rv = ev(e["recv"], d + 1)
@@ -772,8 +855,20 @@ def rule_semtok_tables(prog):
         for k_ in (kw["is_keyword"] if kw else []):
             want[k_] = "Keyword"
         for v, cls in sorted(want.items()):
-            out.add("semantic_tokens::map_token", "T6 token kind %s carries the lexical class %s" % (v, cls), assigned.get(v) == cls,
-                    c.loc(mapper["sp"]), "%s is mapped to %s: tokens of this kind get no (or a wrong) semantic token" % (v, assigned.get(v)), ("T6", "lexclass"))
+            got = assigned.get(v)
+            verdict = got == cls
+            if not verdict:
+                # not one flat match: the mapper is evaluated for this token kind (early returns, predicates, helpers)
+                r_ = eval_for_variant(prog, mapper, TT, v, result_enum="SemanticTokenType")
+                if isinstance(r_, tuple) and r_[0] == "variant" and "SemanticTokenType::" in r_[1]:
+                    got = last(r_[1])
+                    verdict = got == cls
+                elif r_ == ("variant", "core::option::Option::None"):
+                    got, verdict = None, False
+                else:
+                    verdict = None if got is None else False
+            out.add("semantic_tokens::map_token", "T6 token kind %s carries the lexical class %s" % (v, cls), verdict,
+                    c.loc(mapper["sp"]), "%s is mapped to %s: tokens of this kind get no (or a wrong) semantic token" % (v, got), ("T6", "lexclass"))
     out.add("SemanticTokensLegend", "T6 legend published from TOKEN_TYPES/TOKEN_MODIFIERS",
             used == {"token_types": "TOKEN_TYPES", "token_modifiers": "TOKEN_MODIFIERS"}, loc, "found %s" % used, ("T6",))
     return out
